@@ -2,9 +2,52 @@ package main
 
 import (
 	"fmt"
+	"reflect"
+	"strings"
 
+	sql_builder "github.com/sunary/sqlize/sql-builder"
 	"github.com/sunary/sqlize/utils"
 )
+
+// struct types whose names carry underscores, capital runs, digits and a plural s: their table names go through the
+// builder's GetTableName (C16: "column/table names in SqlBuilder.AddTable output")
+type AuditLog_v2 struct{ ID int }
+type Order_Item struct{ ID int }
+type HTTPServer_Log struct{ ID int }
+type User_IDs struct{ ID int }
+type plainCamelCase struct{ ID int }
+type X9_y struct{ ID int }
+type ABC_DefGhi_jk struct{ ID int }
+type URLPaths struct{ ID int }
+
+// a foreign key whose target type is not among the registered tables: the referenced table name is derived from the type name
+type Team_MemberX struct{ ID int }
+type refHolder struct {
+	ID     int
+	Member Team_MemberX `sql:"foreign_key:member_id;references:id"`
+}
+
+// columnOf builds a one-field struct with that field name and returns the column name AddTable prints for it
+func columnOf(field string) string {
+	return guard(func() string {
+		t := reflect.StructOf([]reflect.StructField{{Name: field, Type: reflect.TypeOf(int(0))}})
+		out := sql_builder.NewSqlBuilder().AddTable(reflect.New(t).Elem().Interface())
+		i := strings.Index(out, "(\n")
+		if i < 0 {
+			return "no-column-line:" + out
+		}
+		rest := out[i+2:]
+		a := strings.IndexByte(rest, '`')
+		if a < 0 {
+			return "no-column-name:" + out
+		}
+		b := strings.IndexByte(rest[a+1:], '`')
+		if b < 0 {
+			return "no-column-name:" + out
+		}
+		return rest[a+1 : a+1+b]
+	})
+}
 
 // Suite snake (C16): exhaustive strings over {a,s,B,1,_} up to a bounded length, plus random longer ASCII identifiers.
 func init() { suites["snake"] = suiteSnake }
@@ -77,6 +120,84 @@ func suiteSnake(c *ctx) {
 	}
 	c.counts["random_identifiers"] = nRand
 	c.counts["exhaustive_max_len"] = maxLen
+
+	// the builder route: the same conversion observed at the column and table names SqlBuilder prints
+	fields := []string{"CreatedAt_UTC", "User_ID", "HTTP_v2Log", "Order_Item", "APIKey", "UserIDs", "X9Y", "A_bC", "Ab_CdEf", "URLs_Path",
+		"MD5_Sum", "Net__TotalAmount", "A1_B2c", "Foo_BarBaz", "IDs_List", "Z"}
+	nCols := 400
+	if c.tier == "thorough" {
+		nCols = 4000
+	}
+	for i := 0; i < nCols; i++ {
+		n := 1 + c.rng.Intn(14)
+		b := []byte{caps[c.rng.Intn(26)]}
+		for len(b) < n {
+			switch r := c.rng.Intn(10); {
+			case r < 4:
+				b = append(b, letters[c.rng.Intn(26)])
+			case r < 7:
+				b = append(b, caps[c.rng.Intn(26)])
+			case r < 8:
+				b = append(b, byte('0'+c.rng.Intn(10)))
+			default:
+				b = append(b, '_')
+			}
+		}
+		if c.rng.Intn(3) == 0 {
+			b = append(b, 's')
+		}
+		fields = append(fields, string(b))
+	}
+	for k, f := range fields {
+		o := columnOf(f)
+		if o != f {
+			c.nontrivial("col:" + f)
+		}
+		c.emit(fmt.Sprintf("col%d", k), "snake", q(f), q(o))
+	}
+	c.counts["builder_column_names"] = len(fields)
+	tables := []interface{}{AuditLog_v2{}, Order_Item{}, HTTPServer_Log{}, User_IDs{}, plainCamelCase{}, X9_y{}, ABC_DefGhi_jk{}, URLPaths{}, &AuditLog_v2{}}
+	for k, t := range tables {
+		for _, plural := range []bool{false, true} {
+			t, plural := t, plural
+			var name string
+			o := guard(func() string {
+				b := sql_builder.NewSqlBuilder()
+				if plural {
+					b = sql_builder.NewSqlBuilder(sql_builder.WithPluralTableName())
+				}
+				n, tn := b.GetTableName(t)
+				name = n
+				return tn
+			})
+			in := name
+			if plural {
+				in += "s"
+			}
+			c.nontrivial("tbl:" + in)
+			c.emit(fmt.Sprintf("tbl%d_%v", k, plural), "snake", q(in), q(o))
+		}
+	}
+	c.counts["builder_table_names"] = 2 * len(tables)
+	// the referenced table of a foreign key whose target is not registered
+	{
+		o := guard(func() string {
+			out := sql_builder.NewSqlBuilder().AddTable(refHolder{})
+			i := strings.Index(out, "REFERENCES `")
+			if i < 0 {
+				return "no-references:" + out
+			}
+			rest := out[i+len("REFERENCES `"):]
+			j := strings.IndexByte(rest, '`')
+			if j < 0 {
+				return "no-references:" + out
+			}
+			return rest[:j]
+		})
+		c.nontrivial("ref:Team_MemberX")
+		c.emit("ref0", "snake", q("Team_MemberX"), q(o))
+		c.counts["builder_reference_names"] = 1
+	}
 }
 
 func pow(a, b int) int {
